@@ -1,0 +1,7 @@
+//go:build !verif
+
+package bondmachine
+
+// Verification hook, disabled (see verif_on.go, build tag `verif`).
+
+func verifYield(procId int, point int) {}
